@@ -8,7 +8,7 @@ From DesVerif Require Import Life.Model Life.Base Life.Step Life.Trace Life.Fram
 Import ListNotations.
 Open Scope N_scope.
 
-Definition is_p0 (m : N) (i : item) : bool := match i with IPanic m' 0 => m' =? m | _ => false end.
+Definition is_p0 (m : N) (i : item) : bool := match i with IPanic m' 0 _ => m' =? m | _ => false end.
 Definition p0s (m : N) (l : list item) : list item := filter (is_p0 m) l.
 
 Lemma p0s_app m a b : p0s m (a ++ b) = p0s m a ++ p0s m b.
@@ -48,7 +48,8 @@ Qed.
 
 Lemma run_prog_panics m' tk k now m p : forall s,
   snd (run_prog tk k now m 0 p s) = RPanic ->
-  p0s m' (x_log (fst (run_prog tk k now m 0 p s))) = p0s m' (x_log s) ++ (if m =? m' then [IPanic m 0] else []).
+  p0s m' (x_log (fst (run_prog tk k now m 0 p s))) = p0s m' (x_log s) ++
+    (if m =? m' then [IPanic m 0 (catchf (w_mod (x_w (fst (run_prog tk k now m 0 p s))) m))] else []).
 Proof.
   induction p as [|a p IH]; intros s; cbn [run_prog fst snd]; [discriminate|].
   destruct a; try (intros H; rewrite (IH _ H); f_equal; apply (do_act_Keep m' k now m 0)).
@@ -80,7 +81,8 @@ Qed.
 (* Harness::exec: the result flag says whether a callback-panic record was added *)
 Lemma exec_p0 m' k now m c sp p s :
   p0s m' (x_log (fst (exec k now m c sp p s))) =
-  p0s m' (x_log s) ++ (if snd (exec k now m c sp p s) && (m =? m') then [IPanic m 0] else []).
+  p0s m' (x_log s) ++ (if snd (exec k now m c sp p s) && (m =? m')
+                       then [IPanic m 0 (catchf (w_mod (x_w (fst (exec k now m c sp p s))) m))] else []).
 Proof.
   unfold exec.
   match goal with |- context [run_prog false k now m 0 p ?s0] =>
@@ -99,7 +101,7 @@ Qed.
 
 (* ---- the callbacks: error list and active flag follow the panic records ---- *)
 Definition perr (sc : script) (i : item) : list (bool * N) :=
-  match i with IPanic m 0 => if c_catch (cfg sc m) then [] else [(false, m)] | _ => [] end.
+  match i with IPanic m 0 c => if c then [] else [(false, m)] | _ => [] end.
 Definition perrs (sc : script) (l : list item) : list (bool * N) := flat_map (perr sc) l.
 
 Lemma perrs_app sc a b : perrs sc (a ++ b) = perrs sc a ++ perrs sc b.
@@ -110,7 +112,7 @@ Proof.
   intros H. induction l as [|i l IH]; [reflexivity|]. cbn [perrs flat_map p0s filter].
   assert (Hi : item_mod i = Some m) by (apply H; left; reflexivity).
   assert (IH' : perrs sc l = perrs sc (p0s m l)) by (apply IH; intros j Hj; apply H; right; exact Hj).
-  unfold perrs in *. destruct i as [| | | | | |m0 who| | |]; cbn [is_p0 perr app]; try exact IH'.
+  unfold perrs in *. destruct i as [| | | | | |m0 who cc| | | |]; cbn [is_p0 perr app]; try exact IH'.
   destruct who; cbn [perr app]; [|exact IH'].
   cbn [item_mod] in Hi. injection Hi as ->. rewrite N.eqb_refl. cbn [flat_map perr]. rewrite IH'. reflexivity.
 Qed.
@@ -133,10 +135,10 @@ Proof.
   destruct (exec k now m c sp p s) as [s1 pn]. cbn [fst snd] in *. rewrite N.eqb_refl, andb_true_r in HP.
   unfold catch. destruct pn; cbn [fst].
   - constructor; cbn [x_w x_log].
-    + rewrite HP, perrs_app. cbn [perrs flat_map perr app]. destruct (c_catch (cfg sc m)); cbn [fst w_err set_err set_mod].
+    + rewrite HP, perrs_app. cbn [perrs flat_map perr app]. destruct (catchf (w_mod (x_w s1) m)); cbn [fst w_err set_err set_mod].
       * rewrite (fr_err _ _ _ HF), a, app_nil_r. reflexivity.
       * rewrite (fr_err _ _ _ HF), a, app_assoc. reflexivity.
-    + intros _. destruct (c_catch (cfg sc m)); cbn [fst w_mod set_err]; rewrite mod_same; reflexivity.
+    + intros _. destruct (catchf (w_mod (x_w s1) m)); cbn [fst w_mod set_err]; rewrite mod_same; reflexivity.
   - constructor; cbn [x_w x_log]; rewrite HP, app_nil_r.
     + rewrite (fr_err _ _ _ HF). exact a.
     + rewrite (fr_active _ _ _ HF). exact b.
@@ -281,7 +283,7 @@ Definition PI (sc : script) (w : world) (tr : list erec) : Prop :=
 Lemma own_p0s_other m1 m l : Own m1 l -> m1 <> m -> p0s m l = [].
 Proof.
   intros Ho Hn. unfold p0s. induction l as [|i l IH]; [reflexivity|]. inversion Ho; subst. cbn [filter].
-  rewrite (IH H2). destruct i as [| | | | | |m0 who| | |]; try reflexivity. destruct who; [|reflexivity].
+  rewrite (IH H2). destruct i as [| | | | | |m0 who cc| | | |]; try reflexivity. destruct who; [|reflexivity].
   cbn [item_mod] in H1. injection H1 as ->. cbn [is_p0]. apply N.eqb_neq in Hn. rewrite Hn. reflexivity.
 Qed.
 
@@ -322,7 +324,7 @@ Proof. apply (fr_active _ _ _ (exec_Fr k now m c sp p s)). Qed.
 Lemma catch_active c m p w : active (w_mod (fst (catch c m p w)) m) = true -> active (w_mod w m) = true.
 Proof.
   unfold catch. destruct p; cbn [fst]; [|exact (fun H => H)].
-  destruct (c_catch c); cbn [fst w_mod set_err]; rewrite mod_same; discriminate.
+  destruct (catchf (w_mod w m)); cbn [fst w_mod set_err]; rewrite mod_same; discriminate.
 Qed.
 
 Lemma at_sim_start_active k c now m stage s :
@@ -463,8 +465,8 @@ Lemma end_seq_err sc now : forall ms w,
 Proof.
   assert (Hp : forall l, filter (fun e : bool * N => negb (fst e)) (perrs sc l) = perrs sc l).
   { induction l as [|i l IH]; [reflexivity|]. unfold perrs in *. cbn [flat_map]. rewrite filter_app, IH.
-    destruct i as [| | | | | |m0 who| | |]; try reflexivity. destruct who; [|reflexivity]. cbn [perr].
-    destruct (c_catch (cfg sc m0)); reflexivity. }
+    destruct i as [| | | | | |m0 who cc| | | |]; try reflexivity. destruct who; [|reflexivity]. cbn [perr].
+    destruct cc; reflexivity. }
   assert (Hr : forall m j, filter (fun e : bool * N => negb (fst e)) (repeat (true, m) j) = []).
   { intros m j. induction j as [|j IH]; [reflexivity|exact IH]. }
   induction ms as [|m ms IH]; intros w; cbn [end_seq]; [cbn; rewrite app_nil_r; reflexivity|].
@@ -483,8 +485,8 @@ Theorem errors_exact sc :
 Proof.
   assert (Hp : forall l, filter (fun e : bool * N => negb (fst e)) (perrs sc l) = perrs sc l).
   { induction l as [|i l IH]; [reflexivity|]. unfold perrs in *. cbn [flat_map]. rewrite filter_app, IH.
-    destruct i as [| | | | | |m0 who| | |]; try reflexivity. destruct who; [|reflexivity]. cbn [perr].
-    destruct (c_catch (cfg sc m0)); reflexivity. }
+    destruct i as [| | | | | |m0 who cc| | | |]; try reflexivity. destruct who; [|reflexivity]. cbn [perr].
+    destruct cc; reflexivity. }
   destruct (run_decomp sc) as (w & tr & HG & [(_ & _ & now & Et & Ee)|(_ & Et & Ee)]); destruct (gen_PI sc w tr HG) as [He _].
   - rewrite Ee, Et, end_seq_err, He, Hp. unfold items. rewrite flat_map_app, perrs_app. reflexivity.
   - rewrite Ee, Et, He, Hp. reflexivity.
